@@ -7,7 +7,7 @@ parser loops forever exactly when such a sequence never ends (F24: a unit reduct
 on the same stack, or an ε-reduction `N → ε` in a state with `goto(q, N) = q`). Two checkers:
 
 **Exact checker `lrNoReduceLoopB`** (second half of this file; theorems `lr_terminates`,
-`lr_terminates_bound` with the explicit fuel `lrSummFuel`, Props/C19d.lean). The
+`lr_terminates_bound` with the explicit fuel `lrSummFuel`, Props/C19e.lean). The
 computation `Comp t s q` that starts with `q` on top of `s` and lasts while `s` is stacked never looks
 below `s`; it either stops (shift, accept, error) or returns by a reduction that pops `s` and `j` more
 states. `compF` evaluates it with bounded recursion depth, `lrSummOk` VERIFIES the resulting summary
